@@ -790,6 +790,8 @@ func c15Session(ctx *core.Ctx, d interface {
 		ctx.Case(in.layout.tokens()+" "+text, nontrivial)
 		detail := map[string]any{"kind": in.kind, "layout": in.layout.tokens(), "ops": c15OpsText(in.ops), "events": text,
 			"gomaxprocs": in.procs, "jitter_permille": in.jitter, "session": session}
+		detail["replay"] = fmt.Sprintf("VERIF_SEED=%d VERIF_ONLY=traces ./check C15 %s (session %d); standalone: %s reader over pages starting at rows [%s] of %d rows whose values are the row indexes, perform ops %s through parquet.AsyncPages / a file opened with FileReadMode(ReadModeAsync) and compare with ReadModeSync; the event log is re-validated by `async.validate %s <events>` on pqdriver",
+			ctx.Seed, ctx.Tier, session, in.kind, core.JoinInts(in.layout.starts), in.layout.numRows, c15OpsText(in.ops), in.layout.tokens())
 		if i < 2 && session < 2 {
 			ctx.Sample(map[string]any{"kind": in.kind, "layout": in.layout.tokens(), "ops": c15OpsText(in.ops), "events": text})
 		}
